@@ -136,6 +136,13 @@ class Sim:
             raise SimKilled()
         me = self.cur
         if me is None or me._ident != _thread.get_ident():
+            if _thread.get_ident() in _ZOMBIES:
+                _ZOMBIES.discard(_thread.get_ident())
+                # a thread of an EARLIER simulation that could not be unwound
+                # when that simulation ended (it was blocked in a real system
+                # call, e.g. waiting for a real child process) and wakes up
+                # now: it dies here, it is nobody's business any more
+                raise SimKilled()
             self.unsupported = ('sim primitive used by a thread that does not '
                                 'hold the baton')
             self._finish(('unsupported', self.unsupported))
@@ -335,9 +342,14 @@ class Sim:
                     thr._done_real.acquire(timeout=5)
                     if not thr._finished_real:
                         self.zombies += 1
+                        if thr._ident is not None:
+                            _ZOMBIES.add(thr._ident)
         finally:
             _CUR = None
         return self.outcome
+
+
+_ZOMBIES = set()
 
 
 class NullSim:
